@@ -153,6 +153,16 @@ def parse_cbmc_log(path):
                 elif re.match(r"^\[[^\]]+\] line \d+ ", line):
                     pending = line
                 continue
+            try:
+                parse_stat_line(line, res)
+            except (IndexError, ValueError):
+                pass  # a log line cut short by a killed process
+    return res
+
+
+def parse_stat_line(line, res):
+    if True:
+        if True:
             if line.startswith("Runtime Symex:"):
                 res["symex_s"] += float(line.split()[2].rstrip("s"))
             elif line.startswith("Runtime Solver:"):
